@@ -3,6 +3,7 @@ package isaspec
 import (
 	"bytes"
 	"fmt"
+	"unsafe"
 )
 
 // NumSGPR and NumVGPR are the sizes of the modelled register files (the
@@ -85,6 +86,14 @@ const (
 	// QVCCLoRead64: reading vcc_lo as a 32-bit operand whose decoded RegCount is 0
 	// returns the whole 64-bit VCC.
 	QVCCLoRead64
+	// QIntConst64: a negative inline integer constant read as a 32-bit operand
+	// is returned sign-extended to 64 bits (handlers that do not truncate see it).
+	QIntConst64
+	// QFloatConst32: an inline float constant read as a 64-bit operand yields the
+	// single precision bit pattern (emu.Wavefront.ReadOperand ignores the width).
+	QFloatConst32
+	// QRaw is what a handler gets from emu.Wavefront.ReadOperand for 32-bit operands.
+	QRaw = QVCCHiRead | QVCCLoRead64 | QIntConst64
 )
 
 // NewState makes a state filled with unique background values.
@@ -188,11 +197,14 @@ func (st *State) Diff(o *State) (comps []string, detail string) {
 		add("pc", "pc: %#x vs %#x; ", st.PC, o.PC)
 	}
 	for i := range st.V {
+		if &st.V[0] == &o.V[0] {
+			break
+		}
 		if st.V[i] != o.V[i] {
 			add(fmt.Sprintf("v%d", i%NumVGPR), "v%d[lane %d]: %#x vs %#x; ", i%NumVGPR, i/NumVGPR, st.V[i], o.V[i])
 		}
 	}
-	if !bytes.Equal(st.LDS, o.LDS) {
+	if len(st.LDS) > 0 && &st.LDS[0] != &o.LDS[0] && !bytes.Equal(st.LDS, o.LDS) {
 		for i := range st.LDS {
 			if st.LDS[i] != o.LDS[i] {
 				add("lds", "lds[%#x]: %#x vs %#x; ", i, st.LDS[i], o.LDS[i])
@@ -223,12 +235,17 @@ func (st *State) Equal(o *State) bool {
 	if st.S != o.S || st.SCC != o.SCC || st.VCC != o.VCC || st.EXEC != o.EXEC || st.M0 != o.M0 || st.PC != o.PC {
 		return false
 	}
-	for i, v := range st.V {
-		if o.V[i] != v {
+	if len(st.V) != len(o.V) {
+		return false
+	}
+	if len(st.V) > 0 && &st.V[0] != &o.V[0] {
+		a := unsafe.Slice((*byte)(unsafe.Pointer(&st.V[0])), len(st.V)*4)
+		b := unsafe.Slice((*byte)(unsafe.Pointer(&o.V[0])), len(o.V)*4)
+		if !bytes.Equal(a, b) {
 			return false
 		}
 	}
-	if !bytes.Equal(st.LDS, o.LDS) {
+	if len(st.LDS) != len(o.LDS) || (len(st.LDS) > 0 && &st.LDS[0] != &o.LDS[0] && !bytes.Equal(st.LDS, o.LDS)) {
 		return false
 	}
 	if st.Mem != nil {
@@ -288,6 +305,12 @@ func (st *State) ReadScalar(o Operand, bits int) uint64 {
 		}
 		return 0
 	case KInt, KLit, KFloat:
+		if o.Kind == KInt && st.Quirk&QIntConst64 != 0 {
+			return uint64(o.Int)
+		}
+		if o.Kind == KFloat && bits == 64 && st.Quirk&QFloatConst32 != 0 {
+			return ConstValue(o, 32)
+		}
 		return ConstValue(o, bits)
 	}
 	panic("ReadScalar: " + o.Text)
